@@ -91,201 +91,9 @@ func c09Run(c *Ctx) {
 		c.Unspec(sc.Exp.Unspec)
 		return
 	}
-	valid := sc.Items
-	pi := passIndex(d, valid)
-	pos := r.Intn(pi + 1)
-	scopeAt := d.ScopeOf(cmdBefore(d, valid, pos))
-	insert := func(it *Item) []*Item {
-		var items []*Item
-		items = append(items, valid[:pos]...)
-		items = append(items, it)
-		items = append(items, valid[pos:]...)
-		return items
-	}
-	items := valid
-	var wantType flags.ErrorType
-	wantErr := true
-	switch fault {
-	case "none", "exec-error", "completion":
-		wantErr = false
-	case "unknown-option":
-		tok := UnknownToken(r, d, scopeAt)
-		items = insert(&Item{Kind: IFault, Toks: []string{tok}, Note: fault})
-		wantType = flags.ErrUnknownFlag
-	case "bad-value", "bad-choice":
-		var cands []*Opt
-		for _, o := range scopeAt.Addressable(d) {
-			if fault == "bad-choice" && len(o.Choices) > 0 && !o.T.IsFunc() {
-				cands = append(cands, o)
-			}
-			if fault == "bad-value" && len(o.Choices) == 0 && !o.T.IsFunc() && o.T.W != WMap && (isIntKind(o.T.K) || o.T.K == KFloat64 || o.T.K == KDuration) {
-				cands = append(cands, o)
-			}
-		}
-		if len(cands) == 0 {
-			c.Unspec("no option for fault " + fault)
-			return
-		}
-		o := cands[r.Intn(len(cands))]
-		bad := r.Pick([]string{"zz", "", "1x", " 1", "99999999999999999999999x", "0x"})
-		if fault == "bad-choice" {
-			bad = "not-a-choice"
-		}
-		var tok string
-		if o.Long != "" && scopeAt.Long[d.FullLong(o)] == o {
-			tok = "--" + d.FullLong(o) + "=" + bad
-		} else {
-			tok = "-" + string(o.Short) + "=" + bad
-		}
-		items = insert(&Item{Kind: IFault, Toks: []string{tok}, Note: fault})
-		wantType = flags.ErrMarshal
-		if fault == "bad-choice" {
-			wantType = flags.ErrInvalidChoice
-		}
-	case "missing-argument":
-		var cands []*Opt
-		for _, o := range d.ScopeOf(sc.Final).Addressable(d) {
-			if !o.T.IsFlag() && !o.Optional {
-				cands = append(cands, o)
-			}
-		}
-		if len(cands) == 0 || pi < len(valid) {
-			c.Unspec("no option for fault " + fault)
-			return
-		}
-		o := cands[r.Intn(len(cands))]
-		fs := d.ScopeOf(sc.Final)
-		var tok string
-		if o.Long != "" && fs.Long[d.FullLong(o)] == o {
-			tok = "--" + d.FullLong(o)
-		} else {
-			tok = "-" + string(o.Short)
-		}
-		items = append(append([]*Item{}, valid...), &Item{Kind: IFault, Toks: []string{tok}, Note: fault})
-		wantType = flags.ErrExpectedArgument
-	case "flag-with-argument":
-		var cands []*Opt
-		for _, o := range scopeAt.Addressable(d) {
-			if o.T.IsFlag() {
-				cands = append(cands, o)
-			}
-		}
-		if len(cands) == 0 {
-			c.Unspec("no option for fault " + fault)
-			return
-		}
-		o := cands[r.Intn(len(cands))]
-		var tok string
-		if o.Long != "" && scopeAt.Long[d.FullLong(o)] == o {
-			tok = "--" + d.FullLong(o) + "=true"
-		} else {
-			tok = "-" + string(o.Short) + "=true"
-		}
-		items = insert(&Item{Kind: IFault, Toks: []string{tok}, Note: fault})
-		wantType = flags.ErrNoArgumentForBool
-	case "drop-required-option":
-		var idx []int
-		for i, it := range valid {
-			if (it.Kind == IOcc || it.Kind == IFlag) && it.Opt.Required && len(it.Opt.Defaults) == 0 {
-				idx = append(idx, i)
-			}
-		}
-		if len(idx) == 0 {
-			c.Unspec("no required option in the chain")
-			return
-		}
-		i := idx[r.Intn(len(idx))]
-		items = append(append([]*Item{}, valid[:i]...), valid[i+1:]...)
-		wantType = flags.ErrRequired
-	case "drop-required-positional":
-		// remove the last plain token that was needed
-		if sc.Final.Pos == nil {
-			c.Unspec("no positionals")
-			return
-		}
-		last := -1
-		for i, it := range valid {
-			if it.Kind == IPos || it.Kind == IRaw {
-				last = i
-			}
-		}
-		if last < 0 {
-			c.Unspec("no positional token")
-			return
-		}
-		items = append(append([]*Item{}, valid[:last]...), valid[last+1:]...)
-		dn := Denote(d, items)
-		s2 := &Scenario{D: d, Items: items, Exp: dn.Exp, Final: dn.Final}
-		if dn.Final != sc.Final || len(s2.UnmetPositionals()) == 0 {
-			c.Unspec("dropping the token leaves the constraints met")
-			return
-		}
-		wantType = flags.ErrRequired
-	case "unknown-command", "missing-command":
-		// cut after a command word whose command requires a sub-command
-		var cuts []int
-		for i, it := range valid {
-			if it.Kind == ICmd && len(it.Cmd.Parent.Subs) > 0 && !it.Cmd.Parent.SubOptional && it.Cmd.Parent.Pos == nil {
-				cuts = append(cuts, i)
-			}
-		}
-		if len(cuts) == 0 {
-			c.Unspec("no required sub-command in this vector")
-			return
-		}
-		cut := cuts[r.Intn(len(cuts))]
-		items = append([]*Item{}, valid[:cut]...)
-		par := valid[cut].Cmd.Parent
-		// options required by the chain up to here must stay supplied; they are (inserted right after their command word)
-		for _, cm := range par.Chain() {
-			for _, o := range cm.OwnOpts() {
-				if o.Required && len(o.Defaults) == 0 {
-					found := false
-					for _, it := range items {
-						if it.Opt == o {
-							found = true
-						}
-						for _, f := range it.Flags {
-							if f == o {
-								found = true
-							}
-						}
-					}
-					if !found {
-						c.Unspec("required option lost by the cut")
-						return
-					}
-				}
-			}
-		}
-		if fault == "unknown-command" {
-			w := fmt.Sprintf("nocmd%d", r.Intn(100))
-			items = append(items, &Item{Kind: IFault, Toks: []string{w}, Note: fault})
-			wantType = flags.ErrUnknownCommand
-		} else {
-			wantType = flags.ErrCommandRequired
-		}
-	case "help", "help-in-cluster":
-		if d.Options&flags.HelpFlag == 0 {
-			c.Unspec("HelpFlag not set")
-			return
-		}
-		tok := r.Pick([]string{"-h", "--help"})
-		if fault == "help-in-cluster" {
-			var fl *Opt
-			for _, o := range scopeAt.Addressable(d) {
-				if o.T.IsFlag() && o.Short != 0 && scopeAt.Short[o.Short] == o {
-					fl = o
-				}
-			}
-			if fl == nil {
-				c.Unspec("no flag for a cluster")
-				return
-			}
-			tok = "-" + string(fl.Short) + "h"
-		}
-		items = insert(&Item{Kind: IFault, Toks: []string{tok}, Note: fault})
-		wantType = flags.ErrHelp
+	items, wantType, pos, pi, wantErr, ok := injectFault(c, r, d, sc, fault)
+	if !ok {
+		return
 	}
 	args := RenderItems(d, items)
 	b := d.Build()
@@ -411,6 +219,208 @@ func c09Run(c *Ctx) {
 		return
 	}
 	c.Held(cell, shape)
+}
+
+
+// injectFault injects one fault of the given kind into the valid scenario sc at a random legal item position.
+// It returns the faulted items and the documented error type. ok=false: the fault does not apply (c.Unspec was called).
+func injectFault(c *Ctx, r *Rand, d *Decl, sc *Scenario, fault string) (items []*Item, wantType flags.ErrorType, pos int, pi int, wantErr bool, ok bool) {
+	valid := sc.Items
+	pi = passIndex(d, valid)
+	pos = r.Intn(pi + 1)
+	scopeAt := d.ScopeOf(cmdBefore(d, valid, pos))
+	insert := func(it *Item) []*Item {
+		var items []*Item
+		items = append(items, valid[:pos]...)
+		items = append(items, it)
+		items = append(items, valid[pos:]...)
+		return items
+	}
+	items = valid
+	wantErr = true
+	switch fault {
+	case "none", "exec-error", "completion":
+		wantErr = false
+	case "unknown-option":
+		tok := UnknownToken(r, d, scopeAt)
+		items = insert(&Item{Kind: IFault, Toks: []string{tok}, Note: fault})
+		wantType = flags.ErrUnknownFlag
+	case "bad-value", "bad-choice":
+		var cands []*Opt
+		for _, o := range scopeAt.Addressable(d) {
+			if fault == "bad-choice" && len(o.Choices) > 0 && !o.T.IsFunc() {
+				cands = append(cands, o)
+			}
+			if fault == "bad-value" && len(o.Choices) == 0 && !o.T.IsFunc() && o.T.W != WMap && (isIntKind(o.T.K) || o.T.K == KFloat64 || o.T.K == KDuration) {
+				cands = append(cands, o)
+			}
+		}
+		if len(cands) == 0 {
+			c.Unspec("no option for fault " + fault)
+			return nil, 0, 0, 0, false, false
+		}
+		o := cands[r.Intn(len(cands))]
+		bad := r.Pick([]string{"zz", "", "1x", " 1", "99999999999999999999999x", "0x"})
+		if fault == "bad-choice" {
+			bad = "not-a-choice"
+		}
+		var tok string
+		if o.Long != "" && scopeAt.Long[d.FullLong(o)] == o {
+			tok = "--" + d.FullLong(o) + "=" + bad
+		} else {
+			tok = "-" + string(o.Short) + "=" + bad
+		}
+		items = insert(&Item{Kind: IFault, Toks: []string{tok}, Note: fault})
+		wantType = flags.ErrMarshal
+		if fault == "bad-choice" {
+			wantType = flags.ErrInvalidChoice
+		}
+	case "missing-argument":
+		var cands []*Opt
+		for _, o := range d.ScopeOf(sc.Final).Addressable(d) {
+			if !o.T.IsFlag() && !o.Optional {
+				cands = append(cands, o)
+			}
+		}
+		if len(cands) == 0 || pi < len(valid) {
+			c.Unspec("no option for fault " + fault)
+			return nil, 0, 0, 0, false, false
+		}
+		o := cands[r.Intn(len(cands))]
+		fs := d.ScopeOf(sc.Final)
+		var tok string
+		if o.Long != "" && fs.Long[d.FullLong(o)] == o {
+			tok = "--" + d.FullLong(o)
+		} else {
+			tok = "-" + string(o.Short)
+		}
+		items = append(append([]*Item{}, valid...), &Item{Kind: IFault, Toks: []string{tok}, Note: fault})
+		wantType = flags.ErrExpectedArgument
+	case "flag-with-argument":
+		var cands []*Opt
+		for _, o := range scopeAt.Addressable(d) {
+			if o.T.IsFlag() {
+				cands = append(cands, o)
+			}
+		}
+		if len(cands) == 0 {
+			c.Unspec("no option for fault " + fault)
+			return nil, 0, 0, 0, false, false
+		}
+		o := cands[r.Intn(len(cands))]
+		var tok string
+		if o.Long != "" && scopeAt.Long[d.FullLong(o)] == o {
+			tok = "--" + d.FullLong(o) + "=true"
+		} else {
+			tok = "-" + string(o.Short) + "=true"
+		}
+		items = insert(&Item{Kind: IFault, Toks: []string{tok}, Note: fault})
+		wantType = flags.ErrNoArgumentForBool
+	case "drop-required-option":
+		var idx []int
+		for i, it := range valid {
+			if (it.Kind == IOcc || it.Kind == IFlag) && it.Opt.Required && len(it.Opt.Defaults) == 0 {
+				idx = append(idx, i)
+			}
+		}
+		if len(idx) == 0 {
+			c.Unspec("no required option in the chain")
+			return nil, 0, 0, 0, false, false
+		}
+		i := idx[r.Intn(len(idx))]
+		items = append(append([]*Item{}, valid[:i]...), valid[i+1:]...)
+		wantType = flags.ErrRequired
+	case "drop-required-positional":
+		// remove the last plain token that was needed
+		if sc.Final.Pos == nil {
+			c.Unspec("no positionals")
+			return nil, 0, 0, 0, false, false
+		}
+		last := -1
+		for i, it := range valid {
+			if it.Kind == IPos || it.Kind == IRaw {
+				last = i
+			}
+		}
+		if last < 0 {
+			c.Unspec("no positional token")
+			return nil, 0, 0, 0, false, false
+		}
+		items = append(append([]*Item{}, valid[:last]...), valid[last+1:]...)
+		dn := Denote(d, items)
+		s2 := &Scenario{D: d, Items: items, Exp: dn.Exp, Final: dn.Final}
+		if dn.Final != sc.Final || len(s2.UnmetPositionals()) == 0 {
+			c.Unspec("dropping the token leaves the constraints met")
+			return nil, 0, 0, 0, false, false
+		}
+		wantType = flags.ErrRequired
+	case "unknown-command", "missing-command":
+		// cut after a command word whose command requires a sub-command
+		var cuts []int
+		for i, it := range valid {
+			if it.Kind == ICmd && len(it.Cmd.Parent.Subs) > 0 && !it.Cmd.Parent.SubOptional && it.Cmd.Parent.Pos == nil {
+				cuts = append(cuts, i)
+			}
+		}
+		if len(cuts) == 0 {
+			c.Unspec("no required sub-command in this vector")
+			return nil, 0, 0, 0, false, false
+		}
+		cut := cuts[r.Intn(len(cuts))]
+		items = append([]*Item{}, valid[:cut]...)
+		par := valid[cut].Cmd.Parent
+		// options required by the chain up to here must stay supplied; they are (inserted right after their command word)
+		for _, cm := range par.Chain() {
+			for _, o := range cm.OwnOpts() {
+				if o.Required && len(o.Defaults) == 0 {
+					found := false
+					for _, it := range items {
+						if it.Opt == o {
+							found = true
+						}
+						for _, f := range it.Flags {
+							if f == o {
+								found = true
+							}
+						}
+					}
+					if !found {
+						c.Unspec("required option lost by the cut")
+						return nil, 0, 0, 0, false, false
+					}
+				}
+			}
+		}
+		if fault == "unknown-command" {
+			w := fmt.Sprintf("nocmd%d", r.Intn(100))
+			items = append(items, &Item{Kind: IFault, Toks: []string{w}, Note: fault})
+			wantType = flags.ErrUnknownCommand
+		} else {
+			wantType = flags.ErrCommandRequired
+		}
+	case "help", "help-in-cluster":
+		if d.Options&flags.HelpFlag == 0 {
+			c.Unspec("HelpFlag not set")
+			return nil, 0, 0, 0, false, false
+		}
+		tok := r.Pick([]string{"-h", "--help"})
+		if fault == "help-in-cluster" {
+			var fl *Opt
+			for _, o := range scopeAt.Addressable(d) {
+				if o.T.IsFlag() && o.Short != 0 && scopeAt.Short[o.Short] == o {
+					fl = o
+				}
+			}
+			if fl == nil {
+				c.Unspec("no flag for a cluster")
+				return nil, 0, 0, 0, false, false
+			}
+			tok = "-" + string(fl.Short) + "h"
+		}
+		items = insert(&Item{Kind: IFault, Toks: []string{tok}, Note: fault})
+		wantType = flags.ErrHelp
+	}
+	return items, wantType, pos, pi, wantErr, true
 }
 
 func init() {
